@@ -69,56 +69,54 @@ def sigOfResponse (resp : Bytes) (unexpected : Int) : SignOut :=
   | some (r, s) => .sig r s
   | none => .fail unexpected
 
+/-- one chunked part of the exchange: send `data` under `op` until the device asks for one of
+    `nexts`; an error status is mapped by the step's `rule`; `post` reads what is needed from the
+    device's last answer -/
+def chunkStep {β : Type} (op : UInt8) (nexts : List UInt8) (data : Bytes) (init : Nat)
+    (rule : List (List Nat × Int) × Int) (post : Bytes → M (Except Int β)) : M (Except Int β) :=
+  catchResult
+    (do let (ok, resp) ← sendChunks CMD_SIGN op nexts data true init
+        if !ok then pure (Except.error SignResponse_ERROR_UNEXPECTED) else post resp)
+    (fun sw => pure (Except.error (applyRule rule sw)))
+
+/-- "how many bytes next": `response[OFF.DATA]` -/
+def nextSize (resp : Bytes) : M (Except Int Nat) := do
+  let n ← idx resp 3
+  pure (Except.ok n.toNat)
+
+/-- step 1 of `sign_authorized`: path and input index -/
+def signStep1 (a : SignAuthArgs) : M (Except Int Nat) :=
+  let data := OP_PATH :: (Bip32.toBinary a.path ++ Bytes.le 4 a.input.toNat)
+  catchResult
+    (do let resp ← sendCommand CMD_SIGN data
+        let rop ← idx resp 2
+        if rop != OP_BTC_TX then pure (Except.error SignResponse_ERROR_UNEXPECTED)
+        else nextSize resp)
+    (fun sw => pure (Except.error (applyRule signAuthorized_0 sw)))
+
 def signAuthorized (a : SignAuthArgs) : M SignOut := do
   let unexpected := SignResponse_ERROR_UNEXPECTED
   -- Step 1: path and input index (the conversion is outside the try)
   if a.input < 0 ∨ a.input ≥ 2 ^ 32 then M.throw' .overflowError else
-  let data := OP_PATH :: (Bip32.toBinary a.path ++ Bytes.le 4 a.input.toNat)
-  let s1 ← catchResult
-    (do let resp ← sendCommand CMD_SIGN data
-        let rop ← idx resp 2
-        if rop != OP_BTC_TX then pure (Except.error unexpected)
-        else do
-          let n ← idx resp 3
-          pure (Except.ok n.toNat))
-    (fun sw => pure (Except.error (applyRule signAuthorized_0 sw)))
-  match s1 with
+  match ← signStep1 a with
   | .error c => pure (.fail c)
   | .ok req1 =>
   -- Step 2: BTC tx + extra data
-  let s2 ← catchResult
-    (match btcPayload a with
-     | none => pure (Except.error SignResponse_ERROR_BTC_TX)
-     | some payload => do
-        let (ok, resp) ← sendChunks CMD_SIGN OP_BTC_TX [OP_TX_RECEIPT] payload true req1
-        if !ok then pure (Except.error unexpected)
-        else do
-          let n ← idx resp 3
-          pure (Except.ok n.toNat))
-    (fun sw => pure (Except.error (applyRule signAuthorized_1 sw)))
-  match s2 with
+  match btcPayload a with
+  | none => pure (.fail SignResponse_ERROR_BTC_TX)
+  | some payload =>
+  match ← chunkStep OP_BTC_TX [OP_TX_RECEIPT] payload req1 signAuthorized_1 nextSize with
   | .error c => pure (.fail c)
   | .ok req2 =>
   -- Step 3: receipt
-  let s3 ← catchResult
-    (do let (ok, resp) ← sendChunks CMD_SIGN OP_TX_RECEIPT [OP_MERKLE_PROOF] a.receipt true req2
-        if !ok then pure (Except.error unexpected)
-        else do
-          let n ← idx resp 3
-          pure (Except.ok n.toNat))
-    (fun sw => pure (Except.error (applyRule signAuthorized_2 sw)))
-  match s3 with
+  match ← chunkStep OP_TX_RECEIPT [OP_MERKLE_PROOF] a.receipt req2 signAuthorized_2 nextSize with
   | .error c => pure (.fail c)
   | .ok req3 =>
   -- Step 4: merkle proof
   match proofPayload a.proof with
   | none => pure (.fail SignResponse_ERROR_MERKLE_PROOF)
   | some pp =>
-  let s4 ← catchResult
-    (do let (ok, resp) ← sendChunks CMD_SIGN OP_MERKLE_PROOF [OP_SUCCESS] pp true req3
-        if !ok then pure (Except.error unexpected) else pure (Except.ok resp))
-    (fun sw => pure (Except.error (applyRule signAuthorized_3 sw)))
-  match s4 with
+  match ← chunkStep OP_MERKLE_PROOF [OP_SUCCESS] pp req3 signAuthorized_3 (fun resp => pure (Except.ok resp)) with
   | .error c => pure (.fail c)
   | .ok resp => pure (sigOfResponse resp unexpected)
 
